@@ -231,15 +231,39 @@ def projAllowed (I : InstIn) (p : Ty) (others : List Ty) (v : Nat) : Bool :=
   | .ok cands => v != 0 && cands.contains v
   | _ => false
 
+/-- `a` is the type `t` or a projection of it -/
+def isOrWraps (a t : Ty) : Bool :=
+  beq a t || (match a with
+    | wild _ (some x) => beq x t && !t.isWild
+    | _ => false)
+
+/-- the assignments the caller requested for parameters whose bound is `p` -/
+def requestsBelow (I : InstIn) (p : Ty) : List Ty :=
+  I.pre.filterMap fun kv =>
+    match boundOf kv.1 with
+    | some b => if beq b p then some kv.2 else none
+    | none => none
+
+/-- the argument stems from the caller's own assignments: it is the assignment requested for `p`
+    (possibly wrapped in a projection), or — `p` itself not being assigned — the assignment
+    requested for a parameter whose bound is `p` (the code then gives `p` the same type:
+    `class A<T1, T2 : T1>`, `T2 ↦ String` requested, so `T1 ↦ String`).  Whether such an argument
+    respects `p`'s own bound is the caller's business ("when they are consistent with the bounds"). -/
+def requestedBy (I : InstIn) (p a : Ty) : Bool :=
+  match I.pre.get p with
+  | some t => isOrWraps a t
+  | none => (requestsBelow I p).any fun v => isOrWraps a v
+
 /-- the checks for one parameter `p` (with the later parameters `others`) and its argument `a`
     under the final assignment `σ` -/
 def instOK1 (I : InstIn) (σ : TMap) (p : Ty) (others : List Ty) (a : Ty) : Bool :=
-  -- no primitive, no bare constructor
-  (!a.isPrim && !a.isTCon && !(argCore a).isPrim && !(argCore a).isTCon) &&
-  -- within the declared bound under σ
-  (match boundOf p with
-   | none => true
-   | some b => withinD I.top a (substituteType b σ)) &&
+  (requestedBy I p a ||
+    -- no primitive, no bare constructor
+    ((!a.isPrim && !a.isTCon && !(argCore a).isPrim && !(argCore a).isTCon) &&
+    -- within the declared bound under σ
+    (match boundOf p with
+     | none => true
+     | some b => withinD I.top a (substituteType b σ)))) &&
   -- a requested assignment is kept, at most wrapped in a permitted projection
   (match I.pre.get p with
    | none => true
@@ -251,7 +275,9 @@ def instOK1 (I : InstIn) (σ : TMap) (p : Ty) (others : List Ty) (a : Ty) : Bool
   -- projections only where permitted (a projection requested by the caller is the caller's)
   (match a with
    | wild v bd =>
-       (match I.pre.get p with | some t => beq a t | none => false) ||
+       (match I.pre.get p with
+        | some t => beq a t
+        | none => (requestsBelow I p).any fun t => beq a t) ||
        (bd.isSome && projAllowed I p others v)
    | _ => true)
 
